@@ -12,6 +12,8 @@ import HcipyVerif.Lemmas.FftPlan
 import HcipyVerif.Lemmas.ZoomN
 import HcipyVerif.Model.FftWeights
 import HcipyVerif.Lemmas.Nft
+import HcipyVerif.Lemmas.Multiplex
+import HcipyVerif.Lemmas.MftState
 
 /-!
 # C01 — every Fourier transform evaluates the same weighted Fourier sum
@@ -220,6 +222,55 @@ theorem naive_backward_eq_sum (m : ℕ) (us xs : List (ℕ → K)) (wOut F : ℕ
     nftBackwardMat E m us xs wOut F j = ∑ k ∈ range m, F k * wOut k * E (dotCoords us xs k j) :=
   ⟨nft_backward_fly_eq_sum E m us xs wOut F j, nft_backward_mat_eq_sum E m us xs wOut F j⟩
 
+/-! ### Tensor fields: `multiplex_for_tensor_fields` -/
+
+/-- **A tensor field is transformed component by component** — for every tensor shape `ts`
+(any order, any extents), every valid tensor multi-index `idx` and every wrapped function `func`
+(`n` samples ↦ `m` samples): sample `k` of component `idx` of the result (raveled position
+`tensorRavel ts idx · m + k`, which lies inside the `tensorSize ts · m` output samples) is
+`func` applied to component `idx` of the input (raveled block `tensorRavel ts idx · n + ·`).
+`multiplexTensor` is the model of the decorator run by the driver op `C01 mux` and compared with
+`NaiveFourierTransform.forward/backward` on tensor fields (family `tie-mux`). -/
+theorem multiplex_componentwise (func : (ℕ → C) → ℕ → C) (ts idx : List ℕ) (hts : ts ≠ [])
+    (hidx : TensorIdx ts idx) (n m : ℕ) (X : ℕ → C) (k : ℕ) (hk : k < m) :
+    multiplexTensor func ts n m X (tensorRavel ts idx * m + k)
+        = func (fun j => X (tensorRavel ts idx * n + j)) k ∧
+      tensorRavel ts idx * m + k < tensorSize ts * m := by
+  refine ⟨multiplexTensor_block func ts hts n m X _ k hk, ?_⟩
+  have h := tensorRavel_lt ts idx hidx
+  calc tensorRavel ts idx * m + k < tensorRavel ts idx * m + m := by omega
+    _ = (tensorRavel ts idx + 1) * m := by ring
+    _ ≤ tensorSize ts * m := Nat.mul_le_mul_right _ h
+
+/-- a scalar field (`tensor_shape = ()`) goes straight to the wrapped function -/
+theorem multiplex_scalar (func : (ℕ → C) → ℕ → C) (n m : ℕ) (X : ℕ → C) :
+    multiplexTensor func [] n m X = func X := rfl
+
+/-- **Transform of a tensor field = the defining sum of every component** (forward and backward,
+both NaiveFourierTransform paths, any tensor shape, arbitrary point sets in any dimension): the
+executed composition `multiplexTensor ∘ nft…` evaluates, at component `idx` and output sample `k`,
+the weighted Fourier sum of component `idx` of the input. -/
+theorem tensor_field_transform_eq_sums (ts idx : List ℕ) (hts : ts ≠ []) (hidx : TensorIdx ts idx)
+    (n m : ℕ) (us xs : List (ℕ → K)) (w wOut : ℕ → C) (X : ℕ → C) :
+    (∀ k < m, multiplexTensor (nftForwardFly E n us xs w) ts n m X (tensorRavel ts idx * m + k)
+        = ∑ j ∈ range n, X (tensorRavel ts idx * n + j) * w j * E (-(dotCoords us xs k j))) ∧
+    (∀ k < m, multiplexTensor (nftForwardMat E n us xs w) ts n m X (tensorRavel ts idx * m + k)
+        = ∑ j ∈ range n, X (tensorRavel ts idx * n + j) * w j * E (-(dotCoords us xs k j))) ∧
+    (∀ j < n, multiplexTensor (nftBackwardFly E m us xs wOut) ts m n X (tensorRavel ts idx * n + j)
+        = ∑ k ∈ range m, X (tensorRavel ts idx * m + k) * wOut k * E (dotCoords us xs k j)) ∧
+    (∀ j < n, multiplexTensor (nftBackwardMat E m us xs wOut) ts m n X (tensorRavel ts idx * n + j)
+        = ∑ k ∈ range m, X (tensorRavel ts idx * m + k) * wOut k * E (dotCoords us xs k j)) := by
+  refine ⟨fun k hk => ?_, fun k hk => ?_, fun j hj => ?_, fun j hj => ?_⟩
+  · rw [multiplexTensor_block _ ts hts n m X _ k hk, nft_forward_fly_eq_sum]
+  · rw [multiplexTensor_block _ ts hts n m X _ k hk, nft_forward_mat_eq_sum]
+  · rw [multiplexTensor_block _ ts hts m n X _ j hj, nft_backward_fly_eq_sum]
+  · rw [multiplexTensor_block _ ts hts m n X _ j hj, nft_backward_mat_eq_sum]
+
+/-- satisfiability: the index `(1, 0, 2)` of a field of tensor shape `(2, 1, 3)` -/
+example : ([2, 1, 3] : List ℕ) ≠ [] ∧ TensorIdx [2, 1, 3] [1, 0, 2] ∧ tensorRavel [2, 1, 3] [1, 0, 2] = 5 := by
+  refine ⟨by simp, ?_, rfl⟩
+  simp [TensorIdx]
+
 /-- **NaiveFourierTransform = MatrixFourierTransform (1-D)** on the same coordinates, both weight
 branches of the MFT, both NFT paths. -/
 theorem naive_eq_mft_1d (n : ℕ) (x u : ℕ → K) (w : Weights C) (f : ℕ → C) (k : ℕ) :
@@ -414,6 +465,27 @@ theorem fft_core_no_clear_counterexample :
       ≠ coreStateNoClear false 1 2 2 (fun _ => (1 : ℤ)) (fun _ => 0) (fun _ => 0) 0 :=
   coreStateNoClear_history_dependent
 
+/-! ### MatrixFourierTransform: `precompute_matrices` / `allocate_intermediate` (`Model/MftState.lean`) -/
+
+/-- **The result of an MFT call does not depend on the call history or on the switches**: for every
+setting of `precompute_matrices`, `allocate_intermediate`, one or two axes, every history of calls
+(precisions `ds`; a tensor field contributes one call per component) on one object starting from
+`__init__`, at the `k`-th call the stored matrices are exactly the ones a fresh object builds for the
+precision of this call, and on two axes the intermediate buffer has this precision — so the products
+taken from the stored state (`mftResult`, for any `run`) are `run (build d) d f`, the value on a
+fresh object.  `mftHistory` is run by the driver op `C01 mftstate` and compared, call by call, with
+the attributes of the real object (family `tie-mftstate`). -/
+theorem mft_call_history_independent {α β γ : Type} (c : MftCfg) (build : Prec → α)
+    (run : α → Prec → β → γ) (ds : List Prec) (k : ℕ) (hk : k < ds.length) (f : β) :
+    ∃ r, (mftHistory c build MftSt.init ds)[k]? = some r ∧
+      mftResult c run r.1 ds[k] f = some (run (build ds[k]) ds[k] f) := by
+  obtain ⟨r, hr, hm, hi⟩ := mftHistory_at_use c build ds MftSt.init (MftSt.init_good build) k hk
+  refine ⟨r, hr, ?_⟩
+  unfold mftResult
+  rw [hm]
+  simp only [true_and]
+  rw [if_pos hi]
+
 /-! ### Concrete instance: `Complex.exp` -/
 
 /-- With `T = exp(2πi·)`, `E = exp(i·)`: the kernel is `exp(-i·u_k·x_j)`, `u_k = 2π·a_k + s`. -/
@@ -510,6 +582,80 @@ example : ∃ (g : Cfg ℝ ℂ) (nfft k : ℕ), 0 < g.N ∧ g.N ≤ g.M ∧ g.Mo
     g.dT * (g.M : ℝ) * g.δ = 1 ∧ g.N + g.Mo - 1 ≤ nfft ∧ k < g.Mo :=
   ⟨{ N := 2, M := 4, Mo := 3, δ := 1 / 2, z := 0, dT := 1 / 2, s := 0, w := 1, emu := false },
     4, 2, by norm_num, by norm_num, by norm_num, by norm_num, by norm_num, by norm_num⟩
+
+/-! ### "The selected transform evaluates the sum": `make_fourier_transform` composed with the classes -/
+
+/-- what "an object of class `m` built for an input grid `i` evaluates the defining sum" means, at the
+generality of each class (`Complex.exp`): the FFT pipeline on any number of consistent axes, the MFT on
+one or two axes with arbitrary separated coordinates (both weight branches), the naive transform on
+arbitrary point sets in any dimension (both code paths) -/
+def EvaluatesSum (i : GridDesc) : Method → Prop
+  | .fft => ∀ (gs : List (Cfg ℝ ℂ)),
+      (∀ g ∈ gs, g.N ≤ g.M ∧ g.Mo ≤ g.M ∧ g.dT * (g.M : ℝ) * g.δ = 1) →
+      ∀ (f : List ℕ → ℂ) (ks : List ℕ), List.Forall₂ (fun k g => k < g.Mo) ks gs →
+        fastForwardN expT expE gs f ks = sumForwardN expT expE gs f ks
+  | .mft => (i.ndim = 1 ∨ i.ndim = 2) ∧
+      (∀ (Nx Nu : ℕ) (x u : ℕ → ℝ) (w : Weights ℂ) (f : ℕ → ℂ) (iu : ℕ),
+        mftForward1 expE Nx x u w f iu = ∑ jx ∈ range Nx, f jx * w.get jx * expE (-(u iu * x jx))) ∧
+      (∀ (Nx Ny Nu Nv : ℕ) (x y u v : ℕ → ℝ) (w : Weights ℂ) (wa : ℕ → ℂ) (f : ℕ → ℂ) (iu iv : ℕ),
+        (∀ p, w.get p = wa p) → iu < Nu → iv < Nv →
+        mftForward expE Nx Ny Nu Nv x y u v w f (iv * Nu + iu)
+          = ∑ iy ∈ range Ny, ∑ ix ∈ range Nx,
+              f (iy * Nx + ix) * wa (iy * Nx + ix) * expE (-(u iu * x ix + v iv * y iy)))
+  | .naive => ∀ (n : ℕ) (us xs : List (ℕ → ℝ)) (w f : ℕ → ℂ) (k : ℕ),
+      nftForwardFly expE n us xs w f k = ∑ j ∈ range n, f j * w j * expE (-(dotCoords us xs k j)) ∧
+      nftForwardMat expE n us xs w f k = ∑ j ∈ range n, f j * w j * expE (-(dotCoords us xs k j))
+
+/-- **Whatever branch `make_fourier_transform` takes, the object it returns evaluates the defining
+sum on the requested grid**: for every input-grid descriptor, every request (parameters or an
+explicit output grid), every outcome of the planner's comparison — if `makeFT` (detection repaired)
+returns a choice `ch`, then (1) the chosen constructor's preconditions hold, (2) the object's output
+grid is the requested grid, and when an explicit grid was replaced by reconstructed FFT parameters
+every axis of it is reproduced exactly (so the sum is taken over the requested points), and (3) the
+class `ch.method` evaluates the defining sum at its full generality (`EvaluatesSum`; for the MFT the
+selection guarantees the one or two axes its model covers).  Composes `selection_sound'` with
+`fast_forward_nd_eq_sum`, `mft_eq_sum_1d`, `mft_eq_sum_2d(_scalar)`, `naive_forward_eq_sum`. -/
+theorem selected_transform_evaluates_sum (i : GridDesc) (o : Option OutReq) (fftCheaper : Bool)
+    (ch : Choice) (ins : List InAxis) (outs : List OutAxis)
+    (hnum : ∀ r, o = some r → r.numFft = numFftAxes ins outs)
+    (h : makeFT detectFix i o fftCheaper = .ok ch) :
+    ctorPre i o ch ∧ ctorGrid i o ch = requestedDesc i o ∧
+      (∀ r, o = some r → ch.via = .params → AxesReproduced ins outs) ∧
+      EvaluatesSum i ch.method := by
+  obtain ⟨hpre, hgrid, hax⟩ := selection_sound_fix i o fftCheaper ch ins outs hnum h
+  refine ⟨hpre, hgrid, hax, ?_⟩
+  cases hm : ch.method with
+  | fft =>
+    intro gs hgs f ks hks
+    exact fastForwardN_eq_sumForwardN expT_isChar expE_isChar expT_period gs hgs f ks hks
+  | mft =>
+    have hp : mftPre i (ctorGrid i o ch) := by
+      have := hpre
+      unfold ctorPre at this
+      rw [hm] at this
+      exact this
+    refine ⟨hp.2.2.2.2.1, ?_, ?_⟩
+    · intro Nx Nu x u w f iu
+      exact mft_forward_eq_sum_1d Nx x u w f iu
+    · intro Nx Ny Nu Nv x y u v w wa f iu iv hw hiu hiv
+      cases w with
+      | scalar w0 =>
+        exact mft_forward_eq_sum_2d_scalar expE_isChar Nx Ny Nu Nv x y u v wa w0
+          (fun p => (hw p).symm) f hiu hiv
+      | array w' =>
+        have hwa : w' = wa := funext hw
+        subst hwa
+        exact mft_forward_eq_sum_2d expE_isChar Nx Ny Nu Nv x y u v w' f hiu hiv
+  | naive =>
+    intro n us xs w f k
+    exact ⟨nft_forward_fly_eq_sum expE n us xs w f k, nft_forward_mat_eq_sum expE n us xs w f k⟩
+
+/-- non-vacuity: each of the three classes is selected for some request -/
+example : makeFT detectFix ⟨.regular, true, 3⟩ none true = .ok ⟨.fft, .params⟩ ∧
+    makeFT detectFix ⟨.regular, true, 2⟩ none false = .ok ⟨.mft, .params⟩ ∧
+    makeFT detectFix ⟨.separated, true, 2⟩ (some ⟨⟨.separated, true, 2⟩, false⟩) true = .ok ⟨.mft, .grid⟩ ∧
+    makeFT detectFix ⟨.unstructured, true, 3⟩ (some ⟨⟨.unstructured, true, 3⟩, false⟩) true = .ok ⟨.naive, .grid⟩ := by
+  decide
 
 /-! ### Hypothesis-free: the configuration comes out of `plan`
 
